@@ -42,7 +42,7 @@ def unit_rows(y):
 # mixture weights
 # --------------------------------------------------------------------------
 
-def spec_weights(aff, saliency, wca, renormalise=True):
+def spec_weights(aff, saliency, wca, renormalise=True, return_defined=False):
     """Saliency-weighted mean affiliation over the tied axes, broadcast to the
     affiliation shape; with ``renormalise`` additionally renormalised over the
     classes.  (The two readings coincide whenever every affiliation column
@@ -53,6 +53,8 @@ def spec_weights(aff, saliency, wca, renormalise=True):
     axes = (wca,) if isinstance(wca, int) else tuple(wca)
     axes = tuple(a % aff.ndim for a in axes)
     if (aff.ndim - 2) in axes:
+        if return_defined:
+            return np.full(aff.shape, 1.0 / K), np.ones(aff.shape, dtype=bool)
         return np.full(aff.shape, 1.0 / K)
     if saliency is None:
         sal = np.ones(aff.shape[:-2] + aff.shape[-1:])
@@ -66,19 +68,29 @@ def spec_weights(aff, saliency, wca, renormalise=True):
     else:
         den = sal[..., None, :].sum(axis=axes, keepdims=True)
     w = num / np.where(den == 0, 1.0, den)
+    if return_defined:
+        # where the denominator vanishes (e.g. every posterior of a tied
+        # group underflowed to zero) the estimator is 0/0: undefined
+        return (np.broadcast_to(w, aff.shape),
+                np.broadcast_to(den != 0, aff.shape))
     return np.broadcast_to(w, aff.shape)
 
 
 def check_weights(w_impl_broadcast, aff, saliency, wca, slack=0.0):
     w = np.asarray(w_impl_broadcast)
-    d1 = float(np.max(np.abs(w - spec_weights(aff, saliency, wca, True))))
-    if d1 <= TOL + slack:
-        note('weights', d1, TOL + slack)
-        return None
-    d2 = float(np.max(np.abs(w - spec_weights(aff, saliency, wca, False))))
-    if d2 <= TOL + slack:
-        note('weights', d2, TOL + slack)
-        return None
+    d = []
+    for renorm in (True, False):
+        ws, defined = spec_weights(aff, saliency, wca, renorm, True)
+        if not np.any(defined):
+            return None
+        with np.errstate(invalid='ignore'):
+            dev = np.abs(w - ws)[defined]
+        di = float(np.max(dev)) if np.all(np.isfinite(dev)) else float('inf')
+        if di <= TOL + slack:
+            note('weights', di, TOL + slack)
+            return None
+        d.append(di)
+    d1, d2 = d
     return f'mixture weights differ from the (saliency-weighted) mean ' \
            f'affiliation over the tied axes by {min(d1, d2):.3e}'
 
